@@ -561,6 +561,8 @@ func init() {
 			runPowerLoss(t, rc)
 		case "diskfull":
 			runDiskFull(t, rc)
+		case "daemon":
+			runDaemonHist(t, rc, "C03")
 		default:
 			base(t, rc)
 		}
